@@ -78,6 +78,24 @@ CLAIMED = {
    note="ordering facts are concrete per atom set; counts symbolic; CrossHair verdict on the unchanged tree is 'Not confirmed' (inconclusive) - it is a counterexample finder here",
    technique="CrossHair on the real sort through the public API; symbolic execution on z3 Real proxies + SMT validity for counts",
    ref='4/C19'),
+
+ 'C14': dict(
+   text=("The real activation.activity runs on a generic reaction row (every numeric field, flux, ratios, mass, exposure, rest "
+         "times symbolic) for each reaction class; its result is proven equal to the documented Bateman closed forms over an "
+         "axiomatised exp (the oracle reuses the code's exp applications with provably equal arguments), non-negative (single "
+         "capture and 'b'), linear in mass, with the fast/epithermal switches; the small-argument branch is proven accurate on "
+         "its guard region against a Taylor enclosure; Sample.calculate_activation plumbing on real rows."),
+   note="exp is an uninterpreted function constrained by sign/monotone/functional/tangent (and secant for 'b') axioms: identities hold for every such function, hence for exp; rounding, monotonicity in exposure and '2n' non-negativity are outside",
+   technique="symbolic execution of the real Python function on z3 Real proxies with an axiomatised exp + SMT (QF_NRA) validity queries; counterexamples replayed against an 80-digit decimal evaluation",
+   ref='4/C14'),
+ 'C15': dict(
+   text=("The real Sample.decay_time runs on symbolic product activities, half-lives, rest-time lists and target with find_root "
+         "replaced by 'returns an arbitrary (t, f(t))': early exit iff activity at removal <= target, acceptance within 0.1%, "
+         "RuntimeError otherwise, f == total activity - target for every rest list (product instances of exp), df == f'; the "
+         "stub's contract is proven on the real find_root with uninterpreted f, df."),
+   note="t >= 0 and Newton convergence are outside (concrete replay only); exp axiomatised; floats as reals",
+   technique="symbolic execution of the real Python method on z3 Real proxies with stubbed root finder + SMT validity queries; uninterpreted-function contract check of find_root",
+   ref='4/C15'),
 }
 
 NOT_APPLICABLE = [
